@@ -243,6 +243,15 @@ func (i *FSTIterator) pointTo(key []byte) error {
 	}
 	i.done = false
 	i.pos = -1
+	// like the real iterator (v1.0.7 pointTo): a key that is present and accepted
+	// by the automaton is pointed to WITHOUT comparing it with the end bound;
+	// only the keys found by walking on are checked against it
+	for p, k := range i.f.keys {
+		if bytes.Equal(k, key) && i.matches(k) {
+			i.pos = p
+			return nil
+		}
+	}
 	return i.advance(key, true)
 }
 
